@@ -1321,6 +1321,17 @@ CLAUSE_OPS = {
         (lambda F, nv: F.add_clause((nv + 1, -(nv + 2))), lambda nv: nv + 2, None),
     'add_parity((nv+1,),0)': (lambda F, nv: F.add_parity((nv + 1,), 0), lambda nv: nv + 1, None),
     'add_clause([])': (lambda F, nv: F.add_clause([]), lambda nv: nv, None),
+    # constraints that are trivially true (or false) still mention their variables
+    'cardinality_neq([nv+1,nv+2],5)':
+        (lambda F, nv: F.cardinality_neq([nv + 1, nv + 2], 5), lambda nv: nv + 2, None),
+    'cardinality_neq([nv+1],-1)':
+        (lambda F, nv: F.cardinality_neq([nv + 1], -1), lambda nv: nv + 1, None),
+    'cardinality_geq([nv+1,-(nv+2)],0)':
+        (lambda F, nv: F.cardinality_geq([nv + 1, -(nv + 2)], 0), lambda nv: nv + 2, None),
+    'cardinality_leq([nv+2],3)':
+        (lambda F, nv: F.cardinality_leq([nv + 2], 3), lambda nv: nv + 2, None),
+    'cardinality_eq([nv+1,nv+2],7)':
+        (lambda F, nv: F.cardinality_eq([nv + 1, nv + 2], 7), lambda nv: nv + 2, None),
     'force_last_mapping': (_force_last, lambda nv: nv, 'mapping'),
 }
 ALPHABETS = {
@@ -1342,7 +1353,9 @@ ALPHABETS['ext'] = ALPHABETS['full'] + [
     'update_variable_number(nv-1)', 'cardinality_leq((nv+1,nv+2,nv+3),1)',
     'cardinality_geq(generator(nv+2,1..),1)', 'cardinality_neq(generator(nv+1),0)',
     'add_clause((nv+1,-(nv+2)))', 'add_parity((nv+1,),0)',
-    'new_sparse_mapping(U)', 'new_bipartite_edges(U)']
+    'new_sparse_mapping(U)', 'new_bipartite_edges(U)',
+    'cardinality_neq([nv+1,nv+2],5)', 'cardinality_neq([nv+1],-1)', 'cardinality_geq([nv+1,-(nv+2)],0)',
+    'cardinality_leq([nv+2],3)', 'cardinality_eq([nv+1,nv+2],7)']
 
 
 class St:
